@@ -37,7 +37,9 @@ set -u
   retried=0
   for t in $(grep -E "^FAILED .*Timeout" $log.suite | sed 's/^FAILED //; s/ - .*//'); do
     echo "--- re-running timed-out test alone: $t"
-    if PYTHONPATH=$wt $PY -m pytest -q -p no:cacheprovider --timeout=0 "$t" > $log.retry 2>&1; then
+    # (the whole test file: some tests read files written by earlier tests of the same file)
+    PYTHONPATH=$wt $PY -m pytest -q -p no:cacheprovider --timeout=0 "${t%%::*}" > $log.retry 2>&1
+    if ! grep -qE "^(FAILED|ERROR) $t( |$)" $log.retry && grep -qE "[0-9]+ passed" $log.retry; then
       echo "    passes without the time limit"; retried=$((retried+1))
       sed -i "s#^FAILED $t .*#RETRIED-PASSED $t#" $log.suite
     else
